@@ -364,6 +364,7 @@ func nsWalkRules(c *Ctx, prop string) (*report.Result, error) {
 	// ---- O12.4 walk cuts
 	checkWalkCuts(c, res, r4)
 	checkVisitLibrary(c, res, r4)
+	checkBlobExamined(c, res, r4)
 
 	if prop == "C12" {
 		checkTranslateOrder(c, m, res)
